@@ -189,8 +189,11 @@ def harness(args, timeout=1200):
 def run_seq(outdir, seed, nseq, nops, size=4000, profile='generic', par=8, extra=None):
     shutil.rmtree(outdir, ignore_errors=True)
     os.makedirs(outdir)
+    # (every RPC runs under the harness's own 20 s watchdog; this limit only guards against a stuck harness and grows
+    # with the amount of work, so that a loaded machine does not turn a large thorough workload into an alarm)
     rc, o, e = harness(['seq', '-seed', str(seed), '-nseq', str(nseq), '-nops', str(nops), '-size', str(size),
-                        '-profile', profile, '-out', outdir, '-par', str(par)] + (extra or []))
+                        '-profile', profile, '-out', outdir, '-par', str(par)] + (extra or []),
+                       timeout=max(1200, nseq * nops // 40))
     res = []
     try:
         res = json.loads(o)
